@@ -592,6 +592,8 @@ fn shapes() -> Vec<(&'static str, u64, Option<Vec<u8>>)> {
         ("200", 5, None),
         ("206", 300, Some(b"bytes=7-11".to_vec())),
         ("mp3", 1000, Some(b"bytes=2-5,0-2,996-".to_vec())),
+        ("mp2", 1000, Some(b"bytes=0-2,997-".to_vec())),
+        ("mp4", 2000, Some(b"bytes=1-2,4-6,8-9,1998-".to_vec())),
     ]
 }
 
@@ -772,7 +774,7 @@ pub fn fault_cases(rng: &mut Rng, thorough: bool) -> Vec<BodyCase> {
     // random faults on longer streams, with empty chunks and pendings mixed in
     let n = if thorough { 100_000 } else { 2_000 };
     for _ in 0..n {
-        let (name, len, range) = shapes()[rng.usize(3)].clone();
+        let (name, len, range) = shapes()[rng.usize(5)].clone();
         let mut q = HReq::get();
         q.range = range;
         let e = ent(len);
@@ -1041,7 +1043,7 @@ pub fn c06(em: &mut Emit, thorough: bool, seed: u64) {
 
 /// C06 on bodies too large to drain: the announced length against the length of the layout
 /// computed independently (u128) from the request's ranges and the entity's headers.
-fn c06_huge(em: &mut Emit, rng: &mut Rng, n: usize) {
+pub fn c06_huge(em: &mut Emit, rng: &mut Rng, n: usize) {
     for i in 0..n {
         let len = *rng.pick(&[u64::MAX, u64::MAX - 1, (1u64 << 63) + 7]);
         let mut e = ent(len);
